@@ -984,6 +984,26 @@ def rejection_triggers(A):
         if it[0] == "type" and it[1] not in typedefs:
             typedefs[it[1]] = it[3]
     vals = {it[1] for it in A["items"] if it[0] == "val"}
+    # F07-8: everything from an assignment named `end` (any case) on is dropped; a reference from the kept part to a dropped
+    # type, value or item of a dropped ENUMERATED then fails to resolve
+    for k, it in enumerate(A["items"]):
+        if it[1].lower() == "end":
+            dropped = set()
+            for d in A["items"][k:]:
+                dropped.add(d[1])
+                if d[0] == "type" and d[3][0] == "ENUM":
+                    dropped.update(i[0] for i in d[3][1])
+
+            def end_sig(o, dropped=dropped):
+                if o[1] != 2:
+                    return False
+                try:
+                    name = "".join(chr(c) for c in o[4:4 + o[3]])
+                except (ValueError, IndexError):
+                    return False
+                return name in dropped
+            out.append((Q_END_NAME, QUIRK_TEXT[Q_END_NAME] + " (here: a reference into the dropped part no longer resolves)", end_sig))
+            break
     for s in all_sizes(A):
         if s["k"] == "range" and s["ext"] and s["lo"] in (0, "MIN") and s["hi"] in ("MAX", I64_MAX):
             out.append(("size_0_max_extensible_rejected", "SIZE(0..MAX, ...) is a parse error: after folding 0..MAX to 'no constraint' the parser insists on ')'",
